@@ -38,8 +38,10 @@ CONSTANTS MaxL,            \* local best is chosen in 0..MaxL
           MaxStops,        \* bound on external stop requests
           MaxExpire,       \* max number of running tasks that expire in one checkTaskTimeout call
           IgnoredStarts,   \* TRUE: explore SyncStart messages arriving while a session runs (ignored; a no-op)
-          LateRace         \* TRUE: a GetHashByNoRsp may be handled after the finder gave up (timeout)
-                           \*       but before its SyncStop was handled by the actor
+          RaceFinder,      \* TRUE: a GetHashByNoRsp may be handled after the finder gave up (timeout) but before the
+                           \*       actor handled the finder's SyncStop (the response was queued ahead of it)
+          RaceBuffer       \* TRUE: more than 2*MaxTasks responses for a block fetcher that has ended may be handled
+                           \*       before the actor handles the block fetcher's SyncStop
 
 Peers == 1..NPeers
 Min2(a, b) == IF a < b THEN a ELSE b
@@ -220,6 +222,7 @@ Commit(g, consumed) ==
   /\ f' = [g EXCEPT !.outs = {}, !.self = <<>>]
   /\ reqs' = (reqs \ consumed) \cup g.outs
   /\ selfq' = selfq \o g.self
+  /\ (g.bfBuf > 2 * MaxTasks) => RaceBuffer      \* bf.responseCh is full and nobody reads it: the send blocks forever
   /\ blocked' = (blocked \/ g.bfBuf > 2 * MaxTasks)
 
 \* the notification tells the truth: nil error only if every block anc+1..target was handed over and acknowledged
@@ -318,7 +321,7 @@ HashByNoRsp(kind) ==
      /\ faults' = IF kind = "ok" THEN faults ELSE faults + 1
      /\ IF fd.st # "full"
           THEN \* finder.GetHashByNoRsp blocks forever: nobody receives on fScanCh any more
-               /\ LateRace
+               /\ RaceFinder
                /\ blocked' = TRUE /\ reqs' = reqs \ {r} /\ UNCHANGED <<fd, selfq>>
           ELSE /\ blocked' = blocked
                /\ IF kind = "err"
